@@ -205,6 +205,25 @@ def run(tier):
             ck.traces(1)
         if bi < 1:
             ck.sample(L[:3] + [l for l in L if l.startswith("RUN")][8:14])
+    # U: one batch under MemorySanitizer: output that depends on uninitialised memory is not a function of the calls
+    exem = core.build_exe("detdrv_msan", ["detdrv.c"], "msan")
+    probes = [p for p in make_probes(rng, tier) if not p[2]["mt"]]
+    L = []
+    for pid, (cls, txt, meta) in enumerate(probes):
+        L.append("PROBE %d %s" % (pid, txt)); L.append("RUN %d 0 0 0 0 -1 H" % pid)
+        for dh in (["SAME"], ["TINY:%d:8" % (meta["level"] or 3)], concretise(rng, H[hi % len(H)], meta)):
+            hi += 1
+            L.append("RUN %d 0 0 0 %d -1 H %s" % (pid, rng.choice([0, 1000]), " ".join(dh)))
+    sp = os.path.join(od, "detm.script"); tp = os.path.join(od, "detm.ndjson")
+    open(sp, "w").write("\n".join(L) + "\n")
+    rc, out = core.sh([exem, sp, tp], timeout=2400, env={"MSAN_OPTIONS": "halt_on_error=1"})
+    ck.cov["msan_runs"] = len([1 for l in (open(tp).read().splitlines() if os.path.exists(tp) else []) if '"e":"run"' in l])
+    if rc != 0 and "MemorySanitizer" in out:
+        fr = re.findall(r"#\d+ 0x[0-9a-f]+ in (\w+) [^\n]*?((?:zstd|huf|fse|hist)\w*\.[ch]:\d+)", out)
+        rp = ck.replay_path("det-msan.script", "\n".join(L) + "\n")
+        ck.violation("use of uninitialised memory (MemorySanitizer) in %s: the output depends on what the heap held" % " <- ".join(f[0] for f in fr[:5]), rp, ident="msan|%s" % (fr[0][1] if fr else "?"))
+    elif rc != 0:
+        ck.warn("MSan driver run failed rc=%d: %s" % (rc, (out.strip().splitlines() or [""])[-1][:160]))
     # S: multi-threaded probes under the deterministic scheduler (harness/vsched.c): same script, different seeded schedules
     from checks import poolcommon as pc
     exes = core.build_exe("detdrv_sched", ["detdrv.c", "vsched.c"], "sanq", extra_ldflags=pc.WRAP)
